@@ -8,7 +8,9 @@ def handle (line : String) : String :=
     match unhex ehex with
     | none => id ++ "\tbad-op expr"
     | some e =>
-      if kind == "C" then
+      -- the list-based model is quadratic in places: very long expressions are left to the implementation-only checks
+      if e.length > 20000 then id ++ "\tunmodelled expression longer than 20000 bytes"
+      else if kind == "C" then
         match compile e with
         | .ok _ => id ++ "\tok"
         | .error .fuel => id ++ "\tunmodelled parser fuel"
